@@ -388,6 +388,59 @@ example : okTrue (elemRestr C10 (fun _ _ _ => .ok false) (.leaf (.elem 0 [qa]) 1
 example : okTrue (seqPass11 (isRestr C11 5) true [el 0 qa 1 (some 1)]
     [el 1 qb 0 (some 1), el 2 qa 1 (some 2)]) = true := by decide
 
+/-! ### element against a choice: every matching branch on its own -/
+
+/-- Element against a choice group (elements.py:1213-1227): the loop over the branches answers yes only
+    through ONE branch — a leaf branch `e` that the element restricts and whose own occurrence range,
+    multiplied by the range of the choice (`OccursCalculator`, reset for every branch), covers the element's
+    range.  The ranges of different matching branches are never added up. -/
+theorem elem_choice_accepts_through_one_branch (C : Ctx) (rec : Rec) (self : Particle)
+    (lo : Nat) (hi : Option Nat) (olo : Nat) (ohi : Option Nat) :
+    ∀ (branches : List Particle), elemRestr.loop C rec self lo hi olo ohi branches = .ok true →
+    ∃ e ∈ branches, e.isGroup = false ∧ rec self e (!C.v11) = .ok true ∧
+      hasOccursRestriction lo hi (occMul (occAdd (0, some 0) e.lo e.hi) olo ohi).1
+        (occMul (occAdd (0, some 0) e.lo e.hi) olo ohi).2 = true := by
+  intro branches
+  induction branches with
+  | nil => intro h; simp [elemRestr.loop, pure, Except.pure] at h
+  | cons e es ih =>
+    intro h
+    unfold elemRestr.loop at h
+    cases hg : e.isGroup with
+    | true => simp [hg, pure, Except.pure] at h
+    | false =>
+      simp only [hg, Bool.false_eq_true, ↓reduceIte, bind, Except.bind] at h
+      cases hr : rec self e (!C.v11) with
+      | error x => simp [hr] at h
+      | ok r =>
+        simp only [hr] at h
+        cases r with
+        | false =>
+          simp only [Bool.not_false, ↓reduceIte] at h
+          obtain ⟨e', he', h'⟩ := ih h
+          exact ⟨e', by simp [he'], h'⟩
+        | true =>
+          simp only [Bool.not_true, Bool.false_eq_true, ↓reduceIte] at h
+          split at h
+          · rename_i hocc
+            exact ⟨e, by simp, hg, hr, hocc⟩
+          · obtain ⟨e', he', h'⟩ := ih h
+            exact ⟨e', by simp [he'], h'⟩
+
+/-- why the calculator is reset: `a{5,5}` against `choice(a{2,2} | any{3,3})` — both branches match `a`,
+    neither admits five occurrences, their sum does; the rule refuses (each branch on its own), and
+    `a a a a a` is indeed not a word of the base choice. -/
+theorem elem_choice_sum_counterexample :
+    let base := grp 9 .choice 1 (some 1) [el 1 qa 2 (some 2), .leaf (.any 2 wAny) 3 (some 3)]
+    okTrue (elemRestr C11 (isRestr C11 5) (el 0 qa 5 (some 5)) base true) = false ∧
+    hasOccursRestriction 5 (some 5) (2 + 3) (some (2 + 3)) = true ∧
+    inModel (el 0 qa 5 (some 5)) [qa, qa, qa, qa, qa] = true ∧ inModel base [qa, qa, qa, qa, qa] = false := by
+  decide
+
+-- non-vacuity: a{2,2} is accepted through the first branch
+example : okTrue (elemRestr C11 (isRestr C11 5) (el 0 qa 2 (some 2))
+    (grp 9 .choice 1 (some 1) [el 1 qa 2 (some 2), .leaf (.any 2 wAny) 3 (some 3)]) true) = true := by decide
+
 /-! ### the three repaired clauses of C14-F0 (`Ctx.repaired`) -/
 
 /-- With the repaired zero-occurrence clause (`C.repaired`, notes/fixes/C14-zero-occurs-and-empty-group.patch)
